@@ -1,5 +1,5 @@
 """C10 — lookup prefilters (glyph-set digests) never change the shaping result."""
-import vlib, corpus
+import vlib, corpus, gsubgen, fontbuild
 
 MODULE = "RbModel.Props.C10"
 LEVEL = "proof"
@@ -190,12 +190,51 @@ def prefilter_search(ctx, shim, r, ncases, nvariants):
                          "direction/level/flags; non-trivial = shaping returned at least one glyph")
 
 
+def prefilter_generated(ctx, shim, r, nfonts, per_font):
+    """the same on/off comparison through shape() on generated GSUB/GDEF fonts (all lookup types, nesting)"""
+    groups, meta = [], []
+    for i in range(nfonts):
+        rec = gsubgen.rand_recipe(r)
+        try:
+            hexf = fontbuild.hexfont(rec)
+        except fontbuild.FontBuildError:
+            continue
+        n = rec["num_glyphs"]
+        reqs = []
+        for _ in range(per_font):
+            feats = gsubgen.user_features(r, rec)
+            text = [0xE000 + r.range(1, n - 1) - 1 for _ in range(r.range(1, 10))]
+            t = ",".join(f"{cp:x}:{j}" for j, cp in enumerate(text))
+            reqs.append(f"shape P{i} {r.choice(['l', 'r', '-'])} - - {r.choice([0, 3, 0x43])} {r.below(3)} {feats} - - {t}")
+        groups.append([f"font P{i} {hexf}", "prefilter on"] + reqs + ["prefilter off"] + reqs + ["prefilter on"])
+        meta.append(reqs)
+    outs = vlib.run_groups(shim, groups, timeout=600)
+    total = nontriv = 0
+    for reqs, o, g in zip(meta, outs, groups):
+        n = len(reqs)
+        on = o[2:2 + n]; off = o[3 + n:3 + 2 * n]
+        for q, x, y in zip(reqs, on, off):
+            total += 1
+            gids_in = [int(e.split(":")[0], 16) - 0xE000 + 1 for e in q.split()[-1].split(",")]
+            gids_out = [int(e.split(":")[0]) for e in x.split()[2:]] if x.startswith("ok") else None
+            if gids_out is not None and gids_out != gids_in:
+                nontriv += 1
+            if x != y:
+                ctx.violation("shaping differs with the digest prefilter on vs off (generated font)",
+                              {"stage": "search", "stream": "prefilter-on-off", "font_line": g[0], "request": q,
+                               "with_prefilter": x, "without_prefilter": y})
+    ctx.note_search("prefilter-generated", total, nontriv,
+                    rule="random GSUB/GDEF recipes (tools/gsubgen.py) x random PUA texts x user features through shape(); "
+                         "non-trivial = some glyph was substituted")
+
+
 def run(ctx):
     ctx.assumptions += [
         "the theorems are about the Lean model of set_digest.rs, CoverageExt::collect and hb_buffer_t::digest; "
         "the model is tied to the crate by the digest-prims correspondence stream (release semantics, wrapping u64)",
-        "that a GSUB/GPOS subtable applies only at positions whose current glyph is covered is part of the lookup "
-        "interpreter (C06 model), here it is exercised end-to-end by the prefilter-on/off search through shape()",
+        "that a GSUB subtable does nothing at a position whose current glyph it does not cover is proved on the interpreter "
+        "model Gsub.lean (C10_skip_position_is_noop / C10_skip_lookup_is_noop); that model is tied to the crate by the "
+        "gsub-interp stream of C06; GPOS appliers are covered by the prefilter-on/off search only",
     ]
     ctx.regen()
     ctx.prove(MODULE)
@@ -207,6 +246,7 @@ def run(ctx):
     if not ctx.quick:
         exhaustive_search(ctx, shim, shifts)
     prefilter_search(ctx, shim, ctx.rng("prefilter"), ctx.budget(250, 2128), ctx.budget(2, 8))
+    prefilter_generated(ctx, shim, ctx.rng("prefilter-gen"), ctx.budget(300, 5000), 6)
 
 
 def replay(ctx, rp):
